@@ -15,6 +15,7 @@ ASSUMPTIONS = ['IEEE rounding abstracted: the round trip is exact over the reals
 
 def oracle(rng, tier):
     mixes = gens.builtin_mixtures()
+    pool = []          # composition objects are re-used across mixtures: conversion must not depend on an object's past
     while True:
         if rng.random() < 0.4:
             m = rng.choice(mixes)
@@ -23,19 +24,31 @@ def oracle(rng, tier):
             if rng.random() < 0.3:
                 m.first_component.molecular_weight = gens.loguniform(rng, 1, 30)
                 m.second_component.molecular_weight = m.first_component.molecular_weight * gens.loguniform(rng, 1e-3, 1e3)
-        x = gens.fraction(rng)
-        case = {'M1': m.first_component.molecular_weight, 'M2': m.second_component.molecular_weight, 'x': x}
+        if pool and rng.random() < 0.5:
+            x, w_shared, mo_shared = rng.choice(pool)
+            shared = True
+        else:
+            x = gens.fraction(rng)
+            try:
+                w_shared, mo_shared = pv.Composition(p=x, type='weight'), pv.Composition(p=x, type='molar')
+            except ValueError:
+                yield {'kind': 'roundtrip', 'case': {'x': x}, 'ok': False, 'detail': 'a value in [0,1] was rejected'}
+                continue
+            pool.append((x, w_shared, mo_shared))
+            del pool[:-20]
+            shared = False
+        case = {'M1': m.first_component.molecular_weight, 'M2': m.second_component.molecular_weight, 'x': x, 'object_converted_before': shared}
         nontriv = case['M1'] != case['M2']
         ok, detail = True, ''
         try:
-            w = pv.Composition(p=x, type='weight')
+            w = w_shared
             mol = w.to_molar(m)
             back = mol.to_weight(m)
             if not (mol.type == 'molar' and back.type == 'weight'):
                 ok, detail = False, 'wrong type tags %s %s' % (mol.type, back.type)
             elif not rel_close(back.p, x, 1e-9, 1e-15):
                 ok, detail = False, 'weight->molar->weight %r -> %r -> %r' % (x, mol.p, back.p)
-            mo = pv.Composition(p=x, type='molar')
+            mo = mo_shared
             ww = mo.to_weight(m)
             back2 = ww.to_molar(m)
             if ok and not rel_close(back2.p, x, 1e-9, 1e-15):
